@@ -863,6 +863,22 @@ func exec(c px.Context, op string, args []sx.Sexp) (res core.Result) {
 		px.DoWithContext(q, func(ctx px.Context) { res = codec(ctx, args[0].Atom, args[1].MustStr()) })
 		return res
 	}
+	if op == "span" && len(args) == 1 {
+		// the Timespan codec against its model: decode the text the way the deserializer does, print it back
+		src := args[0].MustStr()
+		out := "err"
+		var back px.Value
+		if err := safely(func() { back = px.New(c, c.ParseType("Timespan"), types.WrapString(src)) }); err == nil {
+			if ts, ok := back.(types.Timespan); ok {
+				out = sx.Str(ts.SerializationString()).Atom
+				// direct predicate: the printed form is the harness's own reading of the default format, and is a fixpoint
+				if want := fmtSpan(ts.Duration()); ts.SerializationString() != want {
+					return core.Fail(out, "codec-ts", fmt.Sprintf("%q decodes to %v, printed %q (expected %q)", src, ts.Duration(), ts.SerializationString(), want))
+				}
+			}
+		}
+		return core.Result{Out: out, Pred: "ok", NonTrivial: out != "err", Tags: []string{"span"}}
+	}
 	if op != "ser" || len(args) != 3 {
 		return core.Result{Out: "bad-op", Pred: "FAIL harness-bad-op " + op}
 	}
